@@ -121,3 +121,25 @@ Example C10_barrier_nonvacuous :
   end = (1%nat, mk_out PtWaitAfterSend [] RNone, KWaitAfterSend 0,
          Some (false, 1%nat), Some (false, 0%nat), Some (true, 0%nat)).
 Proof. vm_compute. reflexivity. Qed.
+
+(* remove() always queues its Delete marker behind everything already in the buffer before it
+   returns (or the processor has exited): it reports Ok and no other outcome exists — no error, no
+   panic, no lost marker (the defect repaired by 7541841), so "removed ones are gone" once the
+   barrier of C10_wait_is_a_barrier has passed. *)
+Theorem C10_remove_queues_its_marker :
+  forall c st a k cf st' o,
+  client_of st a = KRemSend k cf -> cstep c st (LClient a) = StepOk st' o ->
+  o = mk_out PtFinish [] (RUnit true) /\ client_of st' a = KIdle /\
+  (s_buf st' = s_buf st ++ [IDelete k cf] \/ (s_pc st = PExited /\ s_buf st' = s_buf st)).
+Proof. exact remove_queues_its_marker. Qed.
+Print Assumptions C10_remove_queues_its_marker.
+
+(* ... and a remove() waiting for room is never stranded: it can finish right now, or the buffer is
+   full in front of a live processor. *)
+Theorem C10_remove_never_stuck :
+  forall c st a k cf,
+  client_of st a = KRemSend k cf ->
+  (exists st', cstep c st (LClient a) = StepOk st' (mk_out PtFinish [] (RUnit true))) \/
+  (s_pc st <> PExited /\ c_buf_cap c <= N.of_nat (length (s_buf st))).
+Proof. exact remove_never_stuck. Qed.
+Print Assumptions C10_remove_never_stuck.
